@@ -37,6 +37,13 @@
         transcribed validator and executor — *partial*: transcribed for chain documents (one
         selection per selection set) only; the complete validator / executor models belong to
         C04 / C01 and would be instantiated through [C13_noninterference];
+      - [C13_feature_validate_eq_sets_partial], [C13_feature_exec_eq_sets_partial],
+        [C13_set_consumers_disciplined]: the same for the transcription of validator and executor on
+        selection sets with aliases, inline and named fragments (still partial: no field merging,
+        arguments, variables, directives);
+      - [C13_reachable_fuel_suffices], [C13_erase_physical_registry],
+        [C13_exclusion_means_still_reached]: what schema.New registers is the least closed set
+        containing the roots (the fuel of [reachable] always suffices);
       - [C13_noninterference_physical] / [C13_orphaned_type_refuted]: the same for erasure followed
         by schema.New's own registration, under the exclusion of the known finding
         orphaned-type-stays-visible, and the witness that it fails without the exclusion;
@@ -45,7 +52,8 @@
       - [C13_enabling_is_monotone]: erase (erase S F') F = erase S F for F ⊆ F';
       - [C13_enabling_shows_everything]: with every feature enabled nothing is deleted. *)
 From Coq Require Import String List.
-From ApiFu Require Import Base.Sexp Feat.FeaturesModel Feat.FeaturesSpec Feat.FeaturesProofs.
+From ApiFu Require Import Base.Sexp Feat.FeaturesModel Feat.FeaturesSpec Feat.FeaturesProofs Feat.FeaturesReach
+  Feat.FeaturesDocModel Feat.FeaturesDocProofs.
 Import ListNotations.
 Open Scope string_scope.
 Open Scope list_scope.
@@ -130,6 +138,33 @@ Theorem C13_chain_consumers_disciplined : forall fx S F c,
   (exists r, snd (run fx S F [] (chain_prog c)) = Done r).
 Proof. exact (fun fx S F c => conj (chain_validate_disciplined fx S F c) (chain_prog_disciplined fx S F c)). Qed.
 
+(** the same for documents made of selection SETS (Feat/FeaturesDocModel.v): any number of
+    selections per selection set, response keys (aliases), __typename, inline fragments with and
+    without type condition, named fragments spread any number of times; validator: field lookup,
+    leaf / composite subselection rule, type conditions, spread possibility against the scope
+    (getPossibleTypes); executor: collectFields with visitedFragments and doesFragmentTypeApply,
+    GetField, abstract-type resolution, completion with null propagation — for every fuel.
+    Still partial with respect to the full statement above: the field-merging rule (and merged
+    selection sets of equal response keys), arguments, variables, directives, mutations are not
+    transcribed (C04 / C01); [C13_noninterference] applies to them verbatim once they are. *)
+Theorem C13_feature_validate_eq_sets_partial : forall S F G d,
+  schema_ok S = true -> subset F G = true ->
+  run fixed S F [] (sdoc_validate d) = run fixed (erase S F) G [] (sdoc_validate d).
+Proof. exact sets_validate_eq. Qed.
+
+Theorem C13_feature_exec_eq_sets_partial : forall S F G fuel d,
+  schema_ok S = true -> subset F G = true ->
+  run fixed S F [] (sdoc_prog fuel d) = run fixed (erase S F) G [] (sdoc_prog fuel d).
+Proof. exact sets_exec_eq. Qed.
+
+(** those consumers never forge a type pointer either, on any schema, document and fuel: every
+    pointer-taking lookup they make is applied to a pointer an earlier answer handed out (the
+    executor's by-name lookup of a type condition: to a name the validator resolved) *)
+Theorem C13_set_consumers_disciplined : forall fx S F fuel d,
+  (exists r, snd (run fx S F [] (sdoc_validate d)) = Done r) /\
+  (exists r, snd (run fx S F [] (sdoc_prog fuel d)) = Done r).
+Proof. exact (fun fx S F fuel d => conj (sdoc_validate_disciplined fx S F d) (sdoc_prog_disciplined fx S F fuel d)). Qed.
+
 (** the reference exists: the reduced schema is accepted by schema.New *)
 Theorem C13_erase_schema_ok : forall S F, schema_ok S = true -> schema_ok (erase S F) = true.
 Proof. exact erase_schema_ok. Qed.
@@ -156,6 +191,33 @@ Theorem C13_noninterference_physical : forall (A : Type) (p : prog A) S F G,
   schema_ok S = true -> subset F G = true -> excl_orphaned_type S F = false ->
   run fixed S F [] p = run fixed (erase_physical S F) G [] p.
 Proof. exact @noninterference_physical. Qed.
+
+(** [reachable] (what schema.New registers; an iteration with fuel = number of types) computes
+    exactly the least set of names that contains the roots - directive argument types, root
+    operation types, AdditionalTypes - and is closed under the references of registered types
+    ([reaches], an inductive predicate): the fuel always suffices. *)
+Theorem C13_reachable_fuel_suffices : forall S n,
+  schema_ok S = true -> (In n (reachable S) <-> reaches S n).
+Proof. exact (fun S n H => reachable_iff S H n). Qed.
+
+(** hence the registry of the physically reduced schema, without any fuel: *)
+Theorem C13_erase_physical_registry : forall S F n,
+  schema_ok S = true ->
+  (In n (map fst (types (erase_physical S F))) <-> reaches (erase S F) n).
+Proof. exact erase_physical_registry. Qed.
+
+(** the exclusion of the known finding says: every type the request may see is still reached from
+    the roots of the reduced definition *)
+Theorem C13_exclusion_means_still_reached : forall S F,
+  schema_ok S = true ->
+  (excl_orphaned_type S F = false <-> forall n, visible S F n = true -> reaches (erase S F) n).
+Proof. exact excl_orphaned_spec. Qed.
+
+Theorem C13_noninterference_physical_declarative : forall (A : Type) (p : prog A) S F G,
+  schema_ok S = true -> subset F G = true ->
+  (forall n, visible S F n = true -> reaches (erase S F) n) ->
+  run fixed S F [] p = run fixed (erase_physical S F) G [] p.
+Proof. exact @noninterference_physical_reaches. Qed.
 
 Theorem C13_orphaned_type_refuted :
   schema_ok W_orphan = true /\ excl_orphaned_type W_orphan [] = true /\
@@ -229,10 +291,17 @@ Print Assumptions C13_gated_never_called.
 Print Assumptions C13_feature_validate_eq_partial.
 Print Assumptions C13_feature_exec_eq_partial.
 Print Assumptions C13_chain_consumers_disciplined.
+Print Assumptions C13_feature_validate_eq_sets_partial.
+Print Assumptions C13_feature_exec_eq_sets_partial.
+Print Assumptions C13_set_consumers_disciplined.
 Print Assumptions C13_erase_schema_ok.
 Print Assumptions C13_enabling_is_monotone.
 Print Assumptions C13_enabling_shows_everything.
 Print Assumptions C13_noninterference_physical.
+Print Assumptions C13_reachable_fuel_suffices.
+Print Assumptions C13_erase_physical_registry.
+Print Assumptions C13_exclusion_means_still_reached.
+Print Assumptions C13_noninterference_physical_declarative.
 Print Assumptions C13_orphaned_type_refuted.
 Print Assumptions C13_introspection_refuted_before_fix.
 Print Assumptions C13_spread_refuted_before_fix.
